@@ -89,11 +89,9 @@ def paintNote (im : List (Nat × Nat)) (m : Mapping) (f : Frame) (note : Nat) (c
 /-- `note - byte(offset)` in `uint8` -/
 def baseOf (note : Nat) (offset : Int) : Nat := u8 ((note : Int) - (u8 offset : Int))
 
-/-- the frame for the current state -/
-def frame (checked : Bool) (d : Dev) (devName : String) (leds : List String) (shifted : RGB × RGB × RGB) : Frame :=
-  match d.curMap with
-  | none => .panic
-  | some m =>
+/-- the frame before the note highlights: unavailable colour, strip LEDs, action keys, pitch-class colours -/
+def frameBase (checked : Bool) (d : Dev) (devName : String) (leds : List String) (shifted : RGB × RGB × RGB)
+    (m : Mapping) : Frame :=
   let cfg := d.cfg
   let cols := cfg.colors
   let im := indexMap leds
@@ -124,7 +122,7 @@ def frame (checked : Bool) (d : Dev) (devName : String) (leds : List String) (sh
   let f := if d.channel = 15 then pa f .channelUp (third cc) else f
   let f := pa f .multinote white1
   -- keyboard mapping: pitch-class colours
-  let f := (m.midi.filter (fun p => p.1.1 = "")).foldl (fun f p =>
+  (m.midi.filter (fun p => p.1.1 = "")).foldl (fun f p =>
     match alookup p.1.2 im with
     | none => f
     | some i =>
@@ -137,12 +135,24 @@ def frame (checked : Bool) (d : Dev) (devName : String) (leds : List String) (sh
           | 1 | 3 | 6 | 8 | 10 => shifted.2.1
           | _ => shifted.1
       setAt f i col) f
-  -- MIDI-input notes: channel colours from 15 down to 0, then the current channel, then the device's own notes
+
+/-- MIDI-input notes: channel colours from 15 down to 0, then the current channel in the external colour -/
+def frameExt (d : Dev) (leds : List String) (m : Mapping) (f : Frame) : Frame :=
+  let im := indexMap leds
+  let offset : Int := d.semitone + d.octave * 12
   let f := (List.range 16).reverse.foldl (fun f ch =>
     (d.ext.filter (fun p => p.1 = ch)).foldl (fun f p => paintNote im m f (baseOf p.2 offset) (chanColor ch)) f) f
-  let f := (d.ext.filter (fun p => p.1 = d.channel)).foldl (fun f p => paintNote im m f (baseOf p.2 offset) cols.activeExternal) f
-  let f := d.noteTr.foldl (fun f p => paintNote im m f (baseOf p.2.1 offset) cols.active) f
-  f
+  (d.ext.filter (fun p => p.1 = d.channel)).foldl
+    (fun f p => paintNote im m f (baseOf p.2 offset) d.cfg.colors.activeExternal) f
+
+/-- the frame for the current state: base, MIDI-input highlights, then the device's own notes in the active colour -/
+def frame (checked : Bool) (d : Dev) (devName : String) (leds : List String) (shifted : RGB × RGB × RGB) : Frame :=
+  match d.curMap with
+  | none => .panic
+  | some m =>
+    let offset : Int := d.semitone + d.octave * 12
+    d.noteTr.foldl (fun f p => paintNote (indexMap leds) m f (baseOf p.2.1 offset) d.cfg.colors.active)
+      (frameExt d leds m (frameBase checked d devName leds shifted m))
 
 def rgbTok (c : RGB) : String :=
   let h := fun (n : Nat) => String.ofList [("0123456789abcdef".toList.getD (n / 16 % 16) '?'), ("0123456789abcdef".toList.getD (n % 16) '?')]
